@@ -286,14 +286,13 @@ class ConcreteCell:
     def reference_normal(self, f):
         return self._outward_normal(self.Xref, f, self.tdim)
 
-    def facet_edge_vectors(self, reference=False):
+    def facet_edge_vectors(self, f, reference=False):
+        """Edge vectors of the current facet f (3 x dim)."""
         if self.tdim != 3:
             raise Undefined("facet edges need tdim 3")
         verts = self.Xref if reference else self.V
-        rows = []
-        for fv in self.ref["facets"]:
-            for a, b in TRIANGLE_EDGES:
-                rows.append(verts[fv[b]] - verts[fv[a]])
+        fv = self.ref["facets"][f]
+        rows = [verts[fv[b]] - verts[fv[a]] for a, b in TRIANGLE_EDGES]
         return np.array(rows, dtype=object)
 
     def facet_edge_lengths(self, f):
